@@ -193,7 +193,7 @@ _MC = ("TLC explores the bounded TLA+ models of the property's state machine exh
        "same way. Exhaustive within the bound, sampled beyond it; by data independence a history over N distinct keys stands for all order-isomorphic ones.")
 _NOTE = ("Trusted: TLC and the CommunityModules JSON reader; the Go harness (it executes what it logs; reflection is read-only); "
          "bounded universes as stated in the evidence file.")
-_TECH = "explicit TLA+ spec; TLC model checking + TLC trace validation of events recorded from the real code (exhaustive bounded tour + random histories)"
+_TECH = "explicit TLA+ spec; TLC model checking + TLC trace validation of events recorded from the real code (exhaustive bounded tour, scripted histories at scale, random histories, replay of TLC-simulated behaviours of the implementation-shaped models)"
 for _k, _p in PLAN.items():
     _p.setdefault("claim", _MC if _p["level"] == "model_checking" else
                   "Exploration: every exported operation is executed in every reachable state of the bounded universes with every "
